@@ -130,6 +130,7 @@ func c14Record(c *CaseC14, d []byte, label string) {
 
 func TestC14(t *testing.T) {
 	Col.Property = "C14"
+	ReplayRegress(t, "C14")
 	// (1) exhaustive: every byte string of length <= 2 (quick) / <= 3 (thorough), sharded by first byte
 	maxLen := 2
 	if Thorough() {
